@@ -436,9 +436,15 @@ class BaseFeatureWriter:
             x, y = collapse_varscalar(x_value), collapse_varscalar(y_value)
         else:
             if anchor is None:
-                if glyphName not in self.context.font:
+                # look at the pre-processed glyphs the font is compiled from (they
+                # may carry anchors added by filters), not at the source UFO
+                compiler = self.context.compiler
+                glyphSet = (
+                    compiler.glyphSet if compiler is not None else self.context.font
+                )
+                if glyphName not in glyphSet:
                     return None
-                glyph = self.context.font[glyphName]
+                glyph = glyphSet[glyphName]
                 anchors = [
                     anchor for anchor in glyph.anchors if anchor.name == anchorName
                 ]
